@@ -42,7 +42,7 @@ CLASS_FLOORS["detached-subtree-refused-for-inner-uid"] = 5
 CLASS_FLOORS.update({"ten-or-more-siblings": 10, "depth-3": 10, "dashed-top": 5, "after-reload": 10, "query-recursive": 50, "query-arch-nobody-has": 20,
                      "query-arch-src": 20, "query-types-subset": 50, "query-self": 10, "query-inner": 20,
                      "child-id-repeats-ancestor-id": 3, "refused": 30, "accepted": 30})
-ARCHES = ["x86_64", "i386", "aarch64", "ppc64le", "s390x"]
+ARCHES = ["x86_64", "i386", "aarch64", "ppc64le", "s390x", "ppc64", "ppc", "s390", "armhfp", "sparc", "sparc64"]   # names that are substrings of one another included
 
 
 def plan(tier):
